@@ -60,7 +60,7 @@ Definition chunk_valid (o : opts) (h : fhdr) (st : rst) (c : chunkd) : Prop :=
        (entity = TopoEntity_Cell /\ first = r_ncr st /\ 0 <= r_ncr st /\ r_ncr st + len items <= h_nc h /\
         h_nc h < 18446744073709551616 /\ 2 * r_nfr st <= 2147483648 /\
         Forall (Forall (handle_fits henc off (2 * r_nfr st))) items /\ topo_req (h_topo h) 4 6 items /\
-        add_accepts (fun hs _ => mesh_add_cell o (r_faces st) hs) items))
+        add_accepts (fun hs _ => mesh_add_cell o (r_edges st) (r_faces st) hs) items))
   | CProp idx first ty vals =>
       exists ent si s,
       0 <= idx < 4294967296 /\ idx < len (r_props st) /\ nth (Z.to_nat idx) (r_props st) None = Some (ent, si) /\
